@@ -821,6 +821,27 @@ func c18Render(c *Ctx) {
 		}
 		return true
 	})
+	// the JSON arm re-reads the YAML text: reader and writer must be the same YAML implementation
+	var marshalPkg, readPkg string
+	var readPos token.Pos
+	ast.Inspect(decl.Body, func(n ast.Node) bool {
+		if call, ok := n.(*ast.CallExpr); ok {
+			if cal := Callee(info, call); cal != nil && cal.Pkg() != nil {
+				switch cal.Name() {
+				case "Marshal":
+					marshalPkg = cal.Pkg().Path()
+				case "YAMLToJSON":
+					readPkg = cal.Pkg().Path()
+					readPos = call.Pos()
+				}
+			}
+		}
+		return true
+	})
+	if readPkg != "" {
+		r.Check(readPkg == marshalPkg, "R18e", "the JSON rendering re-reads the YAML text with the YAML implementation that wrote it", c.P.Pos(readPos),
+			fmt.Sprintf("the document is written by %s (YAML 1.2 core schema) and re-read for JSON by %s (a YAML 1.1 reader): plain scalars y/n/yes/no/on/off in any case (an enum value or discriminator value named NO, ON, Y …) stay strings in the YAML rendering and become booleans in the JSON rendering, so the two renderings denote different documents", marshalPkg, readPkg))
+	}
 	r.Check(hasJSON, "R18e", "the json format is rendered as JSON", c.P.Pos(decl.Pos()), "the FormatJSON arm of Render does not convert to JSON")
 	// parseFormat vocabulary
 	for fn, d := range c.oaDecls(cmdOpenAPI) {
